@@ -1,4 +1,6 @@
 import HappyProofs.C03.Rename
+import HappyProofs.C03.Layout
+import HappyProofs.C03.Exchange
 import HappyModel.C03.Spec
 /-!
 # C03 — property theorems
@@ -22,6 +24,13 @@ advanced when the model's events were created — is not observable:
 * `run_id_shift_const` — the special case "all indices shifted by a constant `k`";
 * `observable_log_counter_independent` — for handlers that never look at ids: the sequence of
   (time, target, kind, data, tag) deliveries is *equal*.
+
+* `run_independent_of_heap_layout`, `log_independent_of_heap_layout` (file `Layout.lean`) — the run depends on the
+  pending events as a *multiset* with their `(time, index)` keys, not on the order in which they sit in the heap;
+* `exchange_order_independent_of_completion`, `oneWindow_order_independent_of_completion` (file `Exchange.lean`, on the
+  C05 coordinator model) — the barrier exchange does not depend on the order in which worker threads complete a
+  window; `staged_exchange_depends_on_completion` / `staged_delivery_order_depends_on_completion` are decided witnesses
+  that delivering outboxes in completion order (the seeded change of round 4) does.
 
 Hash randomisation, uuid4, wall clock and `id()` are not in any model: the cross-environment digests
 (`hv/props/c03.py`) decide them, judged by `Holds` (`judge_none_iff_holds`).
